@@ -96,11 +96,11 @@ fn node_of(spec: &Spec) -> NodeSpec {
         .map(|(i, v)| AttrSpec { id: i as u32 + 1, access: Access::RV, quality: if matches!(v, V::List(_)) { Quality::ARRAY } else { Quality::NONE }, value: value_of(v, i as u32 + 1) })
         .collect();
     let mut endpoints = vec![
-        EndpointSpec { id: 0, device_type: 0x16, clusters: vec![ClusterSpec { id: CL2, attrs: vec![AttrSpec { id: 1, access: Access::RV, quality: Quality::NONE, value: Val::U32(7) }], cmds: vec![] }] },
-        EndpointSpec { id: 1, device_type: 0x100, clusters: vec![ClusterSpec { id: CL, attrs: attrs.clone(), cmds: vec![] }] },
+        EndpointSpec { id: 0, device_type: 0x16, clusters: vec![ClusterSpec { id: CL2, attrs: vec![AttrSpec { id: 1, access: Access::RV, quality: Quality::NONE, value: Val::U32(7) }], cmds: vec![], events: vec![] }] },
+        EndpointSpec { id: 1, device_type: 0x100, clusters: vec![ClusterSpec { id: CL, attrs: attrs.clone(), cmds: vec![], events: vec![] }] },
     ];
     if spec.second_endpoint {
-        endpoints.push(EndpointSpec { id: 2, device_type: 0x100, clusters: vec![ClusterSpec { id: CL, attrs, cmds: vec![] }, ClusterSpec { id: CL2, attrs: vec![AttrSpec { id: 1, access: Access::RV, quality: Quality::NONE, value: Val::U32(9) }], cmds: vec![] }] });
+        endpoints.push(EndpointSpec { id: 2, device_type: 0x100, clusters: vec![ClusterSpec { id: CL, attrs, cmds: vec![], events: vec![] }, ClusterSpec { id: CL2, attrs: vec![AttrSpec { id: 1, access: Access::RV, quality: Quality::NONE, value: Val::U32(9) }], cmds: vec![], events: vec![] }] });
     }
     NodeSpec { endpoints }
 }
@@ -614,6 +614,14 @@ pub fn run_check(ctx: &Ctx) -> i32 {
     if let Some(p) = &ctx.replay {
         let doc: Value = serde_json::from_str(&std::fs::read_to_string(p).expect("replay file")).expect("json");
         std::env::set_var("MC_SHOW_PANICS", "1");
+        if doc["replay"]["events_world"] == true {
+            let mut report = Report::new();
+            if let Err(e) = super::evw::replay_part(&doc["replay"], "C14", super::evw::is_c14, &mut report) {
+                eprintln!("MACHINERY: {}", e);
+                return 2;
+            }
+            return common::finish(ctx, report, Evidence::new("exploration"));
+        }
         let Some(spec) = all.iter().find(|s| spec_json(s) == doc["replay"]) else {
             eprintln!("MACHINERY: the replay file does not name a combination of the catalog");
             return 2;
@@ -660,15 +668,23 @@ pub fn run_check(ctx: &Ctx) -> i32 {
             }
         }
     }
+    let events_part = match super::evw::run_part(ctx.tier, "C14", super::evw::is_c14, &mut report) {
+        Ok(v) => v,
+        Err(e) => {
+            eprintln!("MACHINERY: {}", e);
+            return 2;
+        }
+    };
     let mut ev = Evidence::new("exploration");
-    ev.set("evaluations", json!(runs))
+    ev.set("events", events_part.clone());
+    ev.set("evaluations", json!(runs + events_part["scenarios"].as_u64().unwrap_or(0)))
         .set("distinct_nontrivial", json!(chunk_counts.len() as u64 + 1))
         .set("rule", json!("for every node composition of the catalog (octet strings of every size 0..1300 next to fixed ones, every size 1000..1260 alone and after a small value in every request shape, lists of 0..40 items of every size 0..420, lists with items as large as a message, 1..60 attributes of three sizes on one and two endpoints) x request shape (wildcard / concrete paths / reversed) x data version filter (none / matching / stale) x read / subscription priming: the chunks must reassemble to every selected value exactly once, every chunk must decode on its own and fit 1280 bytes, only the last one may end the interaction; plus 5 kinds of node change (endpoint / cluster / attribute disappearing, endpoint appearing) applied while the answer is produced: nothing reported twice, nothing that never existed"))
         .set("samples", json!([spec_json(&all[0]), spec_json(&all[all.len() / 2])]))
         .set("vacuity", json!({"runs": runs, "node_changes_applied_mid_answer": MUTATIONS.load(std::sync::atomic::Ordering::Relaxed), "answers_with_more_than_one_chunk": chunked, "largest_number_of_chunks": max_chunks, "largest_device_datagram": max_dgram, "answers_by_number_of_chunks": chunk_counts.iter().map(|(k, v)| (k.to_string(), *v)).collect::<BTreeMap<_, _>>()}))
         .set("exhaustive_within_bound", json!(true));
     ev.assume("the transmit buffer size is a compile-time constant of the build under test: it is not varied, the value sizes are swept across its boundaries instead");
-    ev.assume("event reports and event filters are not part of this check");
+    ev.assume("events: see 'events' (answers carrying up to seven events of 1..700 bytes, alone and after attribute data; the events buffer is sized so that nothing is evicted)");
     if runs == 0 || chunked == 0 {
         eprintln!("MACHINERY: vacuous C14 run");
         return 2;
